@@ -3,6 +3,8 @@ CONSTANTS
   NT = 3
   NU = 0
   NA = 0
+  Throwing = FALSE
+  WithMake = FALSE
   Vals = {1, 2}
 INVARIANTS TypeOK WellFormed LastAgrees
 PROPERTIES RefProtocolLegal Independence CopiesEqualSource
